@@ -165,6 +165,17 @@ def one_line_values(sh):
             value = rng.choice([seq, seq, [seq], {'k': seq}, (seq, 1)])
             recipe = 'sequence-of-up-to-50-elements:%d' % n_el
             sh.counters['sequences of 21-50 elements (below the practical-width shortcut)'] += 1
+        elif i % 13 == 7:
+            # strings whose printed width differs from a naive measure: both kinds of quotes in different proportions, backslashes, escapes, non-ASCII -
+            # inside containers that fit exactly (the quote is chosen by counting, repr() would choose differently)
+            toks = ["it's", "'a'", '"b', 'cd', "don't", "''", '"', '\\', 'x', "'", '""', 'é', '\t', "she said 'no', 'never'", 'and "no', '\x00']
+            def qs():
+                t = ' '.join(rng.choice(toks) for _ in range(rng.randint(1, 5)))
+                return t.encode('latin-1', 'replace') if rng.random() < 0.3 else t
+            value = rng.choice([lambda: [qs()], lambda: [[qs()]], lambda: (qs(), 1), lambda: {'k': [qs()]}, lambda: [qs(), qs()], lambda: {qs(): 1}, lambda: [[[qs(), 2]]],
+                                lambda: {'key': qs()}])()
+            recipe = 'quote-mix-strings'
+            sh.counters['containers of strings mixing both quote kinds'] += 1
         elif kind == 3:
             tname, value = insts[rng.randrange(len(insts))]
             value = rng.choice([value, [value], {'k': value}])
